@@ -11,6 +11,8 @@ H1  back-end wiring.  The real PtTebdBackend / PtTebd run on symbolic tensors:
     H1/step_* real PtTebd.compute with generic two-site gates == direct application of
               the gates / process tensors to the joint state; reduced states of site
               subsets consistent under partial trace; norm == total trace.
+    H1/nn_gate_real the REAL compute_nn_gate (expm -> symbolic U) returns tensors whose
+              contraction is U with the documented leg order, dims (2,2), (2,3), (3,2).
     H1/generator the two-site Liouvillians handed to compute_nn_gate by the real
               SystemChain / compute_tebd_propagator sum to the chain generator.
     H1/norm_one trace-preserving gates (by construction), unit-trace product state:
@@ -501,6 +503,65 @@ def _kron(a, b):
     return out
 
 
+class NnGateReal(Case):
+    """the REAL mps_mpo.compute_nn_gate (reshape / swapaxes / SVD split / sqrt(s) / NnGate)
+    with only expm replaced (-> symbolic two-site propagator U) and the SVD by the exact
+    factorisation: contracting the returned tensors over the gate bond gives U with the
+    documented leg order (left out, right out | left in, right in), for neighbouring sites of
+    equal AND different Hilbert-space dimension; the gate applied by the real
+    PtTebdBackend.apply_nn_gate to a two-site state == U acting on the state."""
+    functions = ("mps_mpo.compute_nn_gate", "_truncation_index", "NnGate.__init__", "Gate.__init__", "PtTebdBackend.apply_nn_gate")
+    stubs = ("scipy.linalg.expm -> symbolic propagator U, argument recorded", "scipy.linalg.svd -> exact non-truncating factorisation",
+             STUB_SVD)
+    env = {"noconj": True, "extra": SYM_EXTRA}
+    timeout_s = 300
+    first_timeout_s = 60
+
+    def __init__(self, dl, dr, kind):
+        self.dl, self.dr, self.kind = dl, dr, kind
+        self.id = "H1/nn_gate_real/d%d%d_%s" % (dl, dr, kind)
+        self.bounds = {"dims": [dl, dr], "U_entries": kind}
+
+    def run(self, inp):
+        import types
+        import scipy.linalg
+        import oqupy.mps_mpo as mm
+        dl, dr = self.dl, self.dr
+        Dl, Dr = dl * dl, dr * dr
+        n = Dl * Dr
+        if self.kind == "dense":
+            U = inp.arr("U", (n, n))
+        else:
+            U = tebd.sparse_matrix(inp, "U", n, shift=Dr + 1, extra=False) + tebd.sparse_matrix(inp, "V", n, shift=3, extra=False)
+        L = inp.arr("L", (n,))                   # (diagonal) Liouvillian handed in: only recorded
+        Lm = np.diag(L) if inp.mode == "real" else lib._odiag(L)
+        seen = []
+
+        def expm(arg):
+            seen.append(arg)
+            return np.array(U)                   # the code re-shapes its array in place
+        fake = types.SimpleNamespace(expm=expm, svd=scipy.linalg.svd if inp.mode == "real" else env.stub_scipy_svd)
+        with env.patched({"oqupy.mps_mpo.linalg": fake}):
+            gate = mm.compute_nn_gate(Lm, 0, dl, dr, 0.25, EPS)
+        tl, tr = gate.tensors
+        obs = [Ob.holds("sites", list(gate.sites) == [0, 1]),
+               Ob.eq("expm argument == dt * Liouvillian", seen[0], tebd.scale(Lm, 0.25)),
+               Ob.holds("tensor shapes (out, in, bond), (bond, out, in)",
+                        tl.shape[:2] == (Dl, Dl) and tr.shape[1:] == (Dr, Dr) and tl.shape[2] == tr.shape[0])]
+        # documented: U[(lo, ro), (li, ri)] = sum_c tl[lo, li, c] tr[c, ro, ri]
+        rec = np.tensordot(tl, tr, axes=([2], [0]))                  # lo li ro ri
+        rec = np.transpose(rec, (0, 2, 1, 3)).reshape(n, n)
+        obs.append(Ob.eq("gate tensors contracted over the bond == U (left out, right out | left in, right in)", rec, U))
+        # through the real back-end on a symbolic two-site product state
+        ra, rb = inp.arr("ra", (Dl,)), inp.arr("rb", (Dr,))
+        b = PtTebdBackend([ra.reshape(1, Dl, 1, 1), rb.reshape(1, Dr, 1, 1)], [inp.const(np.ones(1))], EPS, {})
+        b.apply_nn_gate(gate)
+        got = tebd.joint_state(b).reshape(n)
+        vec = np.tensordot(ra, rb, axes=0).reshape(n)
+        obs.append(Ob.eq("apply_nn_gate(compute_nn_gate(...)) == U . (rho_l (x) rho_r)", got, U.dot(vec)))
+        return obs
+
+
 class Order(Case):
     """H2: apply_nn_gate_layer, parallel branch under the Executor.map contract with a
     solver-chosen run order == sequential branch"""
@@ -570,7 +631,7 @@ class OrderRun(Case):
         rhos = [inp.arr("r%d" % s, (2, 2)) for s in range(n)]
         gates = [tebd.make_gate(inp, "G%d" % k, 2, 2, 2, self.kind) for k in range(n - 1)]
         pts = [None if s % 2 else tebd.make_pt(inp, "e%d" % s, 2, 1, 1, kind=self.kind)[0] for s in range(n)]
-        sites = list(range(n)) + [(1, 2)]
+        sites = list(range(n)) + [(1, 2) if n > 2 else (0, 1)]
         _, res_s, _ = _run_pt_tebd(inp, n, self.order, 1, rhos, gates, pts, sites)
         count = [0]
 
@@ -580,10 +641,16 @@ class OrderRun(Case):
             count[0] += 1
             return tebd.choose_permutation(inp, m, "order%d" % count[0])
         fake = tebd.fake_concurrent(chooser)
-        with env.patched({"oqupy.backends.pt_tebd_backend.concurrent": fake}):
-            _, res_p, _ = _run_pt_tebd(inp, n, self.order, 1, rhos, gates, pts, sites, config={"parallel": self.mode})
-        nlayers = 2 * (2 if self.order == 1 else 4)
-        obs = [Ob.holds("every layer went through the executor", len(fake.log) == nlayers)]
+        try:
+            with env.patched({"oqupy.backends.pt_tebd_backend.concurrent": fake}):
+                _, res_p, _ = _run_pt_tebd(inp, n, self.order, 1, rhos, gates, pts, sites, config={"parallel": self.mode})
+        except (ValueError, RuntimeError) as e:
+            # an exception of the documented executor contract (e.g. max_workers <= 0 for an
+            # empty layer, submit after shutdown): the mode is not usable for this chain
+            return [Ob.holds("parallel mode %s usable (no exception from the executor contract)" % self.mode, False,
+                             key="executor-exception", info="%s: %s" % (type(e).__name__, e))]
+        nlayers = 2 * sum(1 for b in _layer_bonds(n, self.order) if b)
+        obs = [Ob.holds("every non-empty layer went through the executor", len(fake.log) == nlayers)]
         for step in range(2):
             obs.append(Ob.eq("norm at step %d" % step, res_p["norm"][step], res_s["norm"][step]))
             for ss in sites:
@@ -621,6 +688,25 @@ for par in ("multithread", "multiprocess"):
         import traceback
         tb = traceback.extract_tb(e.__traceback__)
         out[par] = {"ok": False, "error": "%s: %s" % (type(e).__name__, e), "where": "%s:%d" % (tb[-1].filename, tb[-1].lineno)}
+# a chain of exactly two sites has an empty odd layer
+def build2(par):
+    sc = oqupy.SystemChain([2, 2])
+    sc.add_site_hamiltonian(0, 0.3 * sx)
+    sc.add_site_hamiltonian(1, 0.2 * sz + 0.1 * sy)
+    sc.add_nn_hamiltonian(0, 0.7 * sz, sz + 0.2 * sx)
+    cfg = {} if par is None else {"parallel": par}
+    return oqupy.PtTebd(oqupy.AugmentedMPS([np.array([[0.7, 0.1j], [-0.1j, 0.3]]), np.array([[0.5, 0.2], [0.2, 0.5]])]), sc,
+                        [None] * 2, oqupy.PtTebdParameters(dt=0.1, epsrel=1e-10, order=2), dynamics_sites=[0, 1, (0, 1)],
+                        backend_config=cfg)
+import concurrent.futures
+ref2 = build2(None).compute(2, progress_type="silent")
+for par in ("multithread", "multiprocess"):
+    try:
+        r = build2(par).compute(2, progress_type="silent")
+        d = max(float(np.abs(np.array(ref2["dynamics"][k].states) - np.array(r["dynamics"][k].states)).max()) for k in ref2["dynamics"])
+        out[par + "_two_site"] = {"ok": True, "maxdiff": d}
+    except Exception as e:
+        out[par + "_two_site"] = {"ok": False, "error": "%s: %s" % (type(e).__name__, e)}
 # validation step: once the caller has bound concurrent.futures, the REAL executors must
 # reproduce the sequential result
 import concurrent.futures
@@ -676,6 +762,9 @@ class Fresh(Case):
                                 info=str(m.get("error"))))
             obs.append(Ob.holds("fresh interpreter, %s: same results as sequential" % mode,
                                 (not m["ok"]) or m["maxdiff"] < 1e-9, key=mode + "/differs", info=str(m.get("maxdiff"))))
+            t2 = r[mode + "_two_site"]
+            obs.append(Ob.holds("real %s executor on a two-site chain (empty odd layer) == sequential" % mode,
+                                t2["ok"] and t2["maxdiff"] < 1e-9, key=mode + "/two-site", info=str(t2)))
             a = r[mode + "_after_import"]
             obs.append(Ob.holds("real %s executor after `import concurrent.futures` == sequential" % mode,
                                 a["ok"] and a["maxdiff"] < 1e-9, key=mode + "/after-import", info=str(a)))
@@ -691,12 +780,15 @@ def cases(tier):
            Step(2, 1, 2, 2, "sparse", 2, ptrank=3), Step(3, 2, 1, 2, "perm", 1)]
     cs += [NormOne(2, 1, 1, "dense"), NormOne(3, 2, 1, "perm")]
     cs += [Generator(2, 1), Generator(3, 2)]
-    cs += [Order(4, "multithread", 1, 2), Order(4, "multiprocess", 1, 1), OrderRun(4, 1, "multithread")]
+    cs += [NnGateReal(2, 2, "dense"), NnGateReal(2, 3, "dense"), NnGateReal(3, 2, "dense")]
+    cs += [Order(4, "multithread", 1, 2), Order(4, "multiprocess", 1, 1), OrderRun(4, 1, "multithread"),
+           OrderRun(2, 2, "multithread"), OrderRun(2, 1, "multiprocess")]
     cs += [Fresh()]
     if tier == "thorough":
         cs += [OpNn(4, 1, 2, (1, 2, 2, 1), 2), OpNn(4, 2, 2, (2, 1, 1, 2), 1, twice=True), OpNn(3, 1, 2, (2, 2, 2), 2, twice=True),
                OpSitePt(4, 2, (1, 2, 1, 1), 3), OpTraces(4, 2, (1, 2, 2, 1)),
-               NormOne(3, 1, 2, "perm"), NormOne(4, 2, 1, "perm"), Generator(2, 2), Generator(4, 1)]
+               NormOne(3, 1, 2, "perm"), NormOne(4, 2, 1, "perm"), Generator(2, 2), Generator(4, 1),
+               NnGateReal(2, 3, "perm"), NnGateReal(3, 2, "perm")]
         cs += [ProdStep(2, 1, 2, "sparse", 2), ProdStep(3, 2, 1, "sparse", 1), ProdStep(4, 1, 2, "perm", 2), ProdStep(3, 2, 2, "perm", 2)]
         cs += [Step(4, 1, 1, 2, "perm", 1), Step(4, 2, 1, 2, "perm", 1), Step(3, 1, 2, 2, "perm", 2, ptrank=3)]
         cs += [Order(4, "multithread", 2, 2), Order(6, "multiprocess", 1, 1), OrderRun(4, 2, "multiprocess", "perm"), OrderRun(5, 1, "multithread", "perm")]
